@@ -309,18 +309,30 @@ SIM_WORKLOAD("C13", "migrate-race", run_c13, 10)
 
 /* ---- API-level rules: rejected requests, ABT_thread_migrate finds another stream ---- */
 static volatile int hold_flag;
+static ABT_pool holder_pool;
 static void holder_fn(void *arg)
 {
     (void)arg;
     while (!hold_flag)
         ABT_OK(ABT_thread_yield());
+    /* two more scheduling points: a request accepted just before is honoured by now */
+    ABT_OK(ABT_thread_yield());
+    ABT_OK(ABT_thread_yield());
+    ABT_OK(ABT_self_get_last_pool(&holder_pool));
 }
 static void run_c13_rules(void)
 {
     wl_rt rt;
     hold_flag = 0;
+    holder_pool = ABT_POOL_NULL;
     wl_rt_start(&rt, WL_RT_PRIVATE_ONLY);
-    sim_note("C13 rules nes=%d ", rt.nes);
+    /* a stream that was joined but not freed is still in the list of streams, TERMINATED */
+    int joined1 = rt.nes >= 2 && plan_bool();
+    sim_note("C13 rules nes=%d%s ", rt.nes, joined1 ? " (stream 1 joined, not freed)" : "");
+    if (joined1) {
+        ABT_OK(ABT_xstream_join(rt.xs[1]));
+        rt.joined[1] = 1;
+    }
     ABT_thread t;
     int p0 = rt.es_first_pool[0];
     ABT_OK(ABT_thread_create(rt.pools[p0], holder_fn, NULL, ABT_THREAD_ATTR_NULL, &t));
@@ -336,21 +348,25 @@ static void run_c13_rules(void)
     rc = ABT_thread_migrate(t);
     SIM_CHECK(rc != ABT_SUCCESS, "migrate:non-migratable-accepted", "ABT_thread_migrate of a non-migratable unit was accepted");
     ABT_OK(ABT_thread_set_migratable(t, ABT_TRUE));
-    /* main scheduler ULT */
-    ABT_sched sched;
-    ABT_thread st;
-    ABT_OK(ABT_xstream_get_main_sched(rt.xs[0], &sched));
-    (void)sched;
-    (void)st;
-    /* ABT_thread_migrate: another running stream with a different pool exists iff nes >= 2 */
+    /* ABT_thread_migrate: picks another *running* stream iff one exists */
+    int candidates = rt.nes - 1 - joined1;
     rc = ABT_thread_migrate(t);
-    if (rt.nes >= 2) {
-        SIM_CHECK(rc == ABT_SUCCESS, "migrate:no-target-found", "ABT_thread_migrate returned %d although %d other running streams with different pools exist", rc, rt.nes - 1);
+    if (candidates >= 1) {
+        SIM_CHECK(rc == ABT_SUCCESS, "migrate:no-target-found", "ABT_thread_migrate returned %d although %d other running streams with different pools exist", rc, candidates);
     } else
-        SIM_CHECK(rc == ABT_ERR_MIGRATION_NA, "migrate:error-code", "ABT_thread_migrate with a single stream returned %d", rc);
+        SIM_CHECK(rc == ABT_ERR_MIGRATION_NA, "migrate:error-code", "ABT_thread_migrate without another running stream returned %d", rc);
     sim_progress();
     hold_flag = 1;
-    ABT_OK(ABT_thread_free(&t));
+    ABT_OK(ABT_thread_free(&t)); /* (never returns if the unit was parked in a dead stream's pool) */
+    if (candidates >= 1) {
+        int where = -1;
+        for (int i = 0; i < rt.npools; i++)
+            if (rt.pools[i] == holder_pool)
+                where = i;
+        SIM_CHECK(where >= 0 && rt.pool_es[where] != 0 && !(joined1 && rt.pool_es[where] == 1), "migrate:wrong-target",
+                  "ABT_thread_migrate moved the unit to pool %d (stream %d): not a pool of another running stream", where, where >= 0 ? rt.pool_es[where] : -1);
+        sim_count("c13.migrate_any_stream_checked", 1);
+    }
     wl_rt_stop(&rt);
 }
 SIM_WORKLOAD("C13", "rules", run_c13_rules, 2)
